@@ -27,7 +27,7 @@ def run(chk):
     n = 150 if chk.tier == 'quick' else 5000
     kinds = ['list', 'dict', 'ns', 'value', 'counter']
     corpus = [scen_proxycall.gen_case(__import__('random').Random(f'c14-{k}'), chk.tier, bias=k) for k in kinds]
-    core.e1_flow(chk, 'scen_proxycall', 'proxycall', {'C14'},
+    results = core.e1_flow(chk, 'scen_proxycall', 'proxycall', {'C14'},
                  lambda rng: scen_proxycall.gen_case(rng, chk.tier, bias=rng.choice(['', '', 'counter', 'ns'])),
                  n, keyfn=keyfn, sched=False, engine='E4-manager-processes+lean', corpus=corpus,
                  escalate_n=100 if chk.tier == 'quick' else 1000)
@@ -42,6 +42,16 @@ def run(chk):
         'operation on local Python objects (monitor) and with proxyStep pySem in `drv proxycall` (tie), which also '
         'checks the final state of each object. non-trivial = >= 2 client processes, >= 2 object kinds, >= 4 '
         'operations, history ran to its end; distinct = distinct (case, event list)')
+    from collections import Counter
+    ops, kinds, outcomes = Counter(), Counter(), Counter()
+    for case, res in results:
+        for o in case['objs']:
+            kinds[o['kind']] += 1
+        for op, o in res.get('lin', []):
+            ops[op['m']] += 1
+            outcomes['raised ' + o[1] if o[0] == 'exc' else 'returned'] += 1
+        ops['concurrent-batch'] += sum(1 for op in case['ops'] if 'par' in op)
+    chk.cov['distribution'] = dict(operations=dict(ops), object_kinds=dict(kinds), outcomes=dict(outcomes))
     chk.trusted += TRUSTED
     chk.assumptions += ASSUMPTIONS
 
